@@ -181,6 +181,16 @@ CLAIMED["C11"]["text"] = CLAIMED["C11"]["text"].replace("The state-reconstructio
          "under the global iteration number, the rebuilt state satisfies result == sum factor*result after every later iteration. "
          "Additionally a bounded stand-in:")
 
+CLAIMED["C16"] = dict(
+    text="EnergyResult / ResultDict / VoidResult / K__Result arithmetic (real text, real numpy, SYMBOLIC data): element-wise +, -, *, /, "
+         "in-place add, mul_array along either energy axis, for 1-2 energy axes and ranks 0-2; metadata propagation; 0/None/void neutral; "
+         "mismatching energy grids or smoothers refused; EnergyResult.transform hands its own rank and declared TR/inversion transforms "
+         "(right slots) to the real PointSymmetry.transform_tensor and distributes over + for a symbolic operation; ResultDict key-wise. "
+         "K__Result: + is concatenation along k (the structure its callers use), add/-/* element-wise, and '/' returns an unscaled copy "
+         "-- recorded as the coded semantics, not claimed as scaling. Per shape, for all real data. Bounded stand-in: EnergyResult.save -> "
+         "from_npz on real files reproduces energies, data, rank, both transformations (incl. conj, swap_axes, transpose) and comment.",
+    note=TB + "; np.savez / np.load value round trip; the property's 'element-wise' does not literally hold for K__Result.__add__ and __truediv__ (stated, see DESIGN 5/C16)")
+
 NOT_APPLICABLE = {
     "C20": "real-space symmetrisation is a data-dependent floating-point orbit search over irrep objects; its postcondition is only statable through an eigen-solver, no discrete/algebraic kernel is left once externals are abstracted (DESIGN section 7)",
     "C21": "rotation matrices are produced inside sympy (polynomial expansion + evalf); orthogonality/composition live in that CAS computation, outside any contract this engine can generate VCs for (DESIGN section 7)",
